@@ -5,7 +5,7 @@
 package Electiontrigger
 
 //@ func (*TimerBasedElectionTrigger).CalcTimeout
-//@   props C19
+//@   props C19 C12
 //@   mode bv
 //@   pure
 //@   requires t.minTimeout > 0
@@ -16,7 +16,7 @@ package Electiontrigger
 // the general-base path (TIMEOUT_EXP_BASE is an exported variable a consumer may change): never zero or negative, for
 // every view and every base >= 1 (A-POW: the power is then at least 1 or +Inf)
 //@ func (*TimerBasedElectionTrigger).calcTimeoutForBase
-//@   props C19
+//@   props C19 C12
 //@   mode bv
 //@   pure
 //@   requires t.minTimeout > 0 && base >= 1.0
@@ -27,7 +27,7 @@ package Electiontrigger
 // lastTimerStopResult, closed (closed channels), nsent (number of channel sends)
 
 //@ func (*TimerBasedElectionTrigger).Stop
-//@   props C19 C16
+//@   props C19 C16 C12
 //@   modifies Electiontrigger.TimerBasedElectionTrigger.electionHandler, Electiontrigger.TimerBasedElectionTrigger.timer, ghost:timerStopped, ghost:lastTimerStopResult, ghost:closed
 //@   requires [armed-implies-open-cancel-channel] t.timer != nil ==> t.triggerCancelled != nil && !closed[t.triggerCancelled]
 //@   ensures [disarmed] t.electionHandler == nil && t.timer == nil
@@ -37,7 +37,7 @@ package Electiontrigger
 //@   ensures [pair-kept] t.view == old(t.view) && t.blockHeight == old(t.blockHeight) && t.triggerCancelled == old(t.triggerCancelled)
 
 //@ func (*TimerBasedElectionTrigger).RegisterOnElection
-//@   props C19
+//@   props C19 C12
 //@   modifies Electiontrigger.TimerBasedElectionTrigger.electionHandler, Electiontrigger.TimerBasedElectionTrigger.timer, Electiontrigger.TimerBasedElectionTrigger.view, Electiontrigger.TimerBasedElectionTrigger.blockHeight, Electiontrigger.TimerBasedElectionTrigger.triggerCancelled, ghost:timerStopped, ghost:lastTimerStopResult, ghost:closed, ghost:timerDelay, ghost:timerFn
 //@   requires [armed-implies-open-cancel-channel] t.timer != nil ==> t.triggerCancelled != nil && !closed[t.triggerCancelled]
 //@   requires moveToNextLeader != nil
@@ -53,14 +53,14 @@ package Electiontrigger
 
 // the timer callback hands exactly the registered pair and cancel channel to triggerElections
 //@ func (*TimerBasedElectionTrigger).RegisterOnElection$1
-//@   props C19
+//@   props C19 C12
 //@   modifies ghost:nsent
 //@   requires triggerCancelled != nil
 //@   assert before call triggerElections [O19.4.trigger-carries-the-registered-pair] $height == blockHeight && $view == view && $triggerCancelled == triggerCancelled
 
 // a trigger whose registration was already cancelled is never written to the election channel
 //@ func triggerElections
-//@   props C19 C16
+//@   props C19 C16 C12
 //@   modifies ghost:nsent
 //@   requires triggerCancelled != nil
 //@   ensures [cancelled-trigger-is-not-sent] old(closed[triggerCancelled]) ==> nsent == old(nsent)
@@ -77,6 +77,6 @@ package Electiontrigger
 //@   modifies *
 //@   ensures true
 //@ func (*TimerBasedElectionTrigger).RegisterOnElection$1$1
-//@   props C19
+//@   props C19 C12
 //@   modifies *
 //@   assert before call moveToNextLeader [O19.the-trigger-calls-the-handler-back-with-the-registered-height-and-view] $blockHeight == blockHeight && $view == view
